@@ -52,6 +52,7 @@ type c19Case struct {
 	lean  bool // schema inside the Lean fragment
 	known *schema.ImmutableState
 	noSync bool // probes of the stale-snapshot findings
+	pf    *c19PF // document proofs: accumulated hashes learnt from the server's honest answers (c19_forge.go)
 }
 
 func (cs *c19Case) log(f string, a ...interface{}) {
@@ -2066,6 +2067,7 @@ func c19RunCase(r *hx.Result, rng *hx.Rng, stage string, nops int) (err error) {
 		case p < 99:
 			if stage == "db" {
 				timed("proof", cs.opProof)
+				timed("proof-relations", cs.opProofRelations)
 			} else {
 				timed("audit", cs.opAudit)
 			}
@@ -2075,10 +2077,14 @@ func c19RunCase(r *hx.Result, rng *hx.Rng, stage string, nops int) (err error) {
 		if len(cs.C.Docs) < 3 && i%2 == 0 {
 			cs.opInsert()
 		}
+		if stage == "db" {
+			cs.noteState()
+		}
 	}
 	if stage == "db" {
 		for i := 0; i < 3; i++ {
 			cs.opProof()
+			timed("proof-relations", cs.opProofRelations)
 		}
 	}
 	timed("sweep", func() { cs.sweep("final") })
